@@ -391,6 +391,7 @@ type RevClient struct {
 	Who      func(ctx context.Context, tok int) (string, error)
 	WhoAlias func(ctx context.Context, tok int) (string, error)
 	WhoTag   func(ctx context.Context, tok int) (string, error) `rpc_method:"R.Who"`
+	SubR     func(ctx context.Context, tok int) (<-chan int, error)
 }
 
 // RevHandler is the client-side handler object for reverse calls.
@@ -415,6 +416,69 @@ func (h *RevHandler) Who(ctx context.Context, tok int) (string, error) {
 		doPanic(t.Panic, tok)
 	}
 	return h.name + "/" + strconv.Itoa(tok), nil
+}
+
+// SubR is the client-side handler of a reverse subscription: the client
+// streams Tok.N values to the server. The producer ignores the cancellation of
+// its context (a handler is free to), so it may outlive the connection it was
+// started on; Tok.Gate, if set, pauses it after its first value.
+func (h *RevHandler) SubR(ctx context.Context, tok int) (<-chan int, error) {
+	simrt.Rec("revsubh", strconv.Itoa(tok), h.name, 0)
+	t := h.e.Tok(tok)
+	t.mu.Lock()
+	n, gate := t.N, t.Gate
+	t.mu.Unlock()
+	st := h.e.Sub(tok)
+	ch := make(chan int)
+	h.e.S.Go("rprod-"+strconv.Itoa(tok), func() {
+		for k := 0; k < n; k++ {
+			simrt.Yield("rproduce")
+			if k == 1 && gate != nil {
+				select {
+				case <-gate:
+				case <-h.e.Done:
+					return
+				}
+			}
+			select {
+			case ch <- SubVal(tok, k):
+				st.mu.Lock()
+				st.Produced = append(st.Produced, SubVal(tok, k))
+				st.mu.Unlock()
+			case <-h.e.Done:
+				return
+			}
+		}
+		simrt.Yield("rproduce-close")
+		close(ch)
+		st.mu.Lock()
+		st.ProdDone = true
+		st.mu.Unlock()
+	})
+	return ch, nil
+}
+
+// RevSub: the server handler subscribes to a stream produced by the calling
+// client and reports what it received: "<count>:<first anomaly>".
+func (a *API) RevSub(ctx context.Context, tok int) (string, error) {
+	t := a.enter(ctx, tok)
+	defer a.leave(t)
+	rc, ok := jsonrpc.ExtractReverseClient[RevClient](ctx)
+	if !ok {
+		return "norev", nil
+	}
+	ch, err := rc.SubR(ctx, tok)
+	if err != nil {
+		return "", fmt.Errorf("reverr: %w", err)
+	}
+	n, bad := 0, ""
+	for v := range ch {
+		if v != SubVal(tok, n) && bad == "" {
+			bad = fmt.Sprintf("value %d at position %d", v, n)
+		}
+		n++
+	}
+	return fmt.Sprintf("%d:%s", n, bad), nil
 }
 
 func (a *API) Rev(ctx context.Context, tok int) (string, error) {
@@ -463,6 +527,7 @@ type Proxy struct {
 	ReadAll        func(ctx context.Context, tok int, r io.Reader) (string, error)
 	SubF           func(ctx context.Context, tok int) (<-chan float64, error)
 	NotifyRev      func(ctx context.Context, tok int) error `notify:"true"`
+	RevSub         func(ctx context.Context, tok int) (string, error)
 }
 
 type Client struct {
